@@ -309,5 +309,5 @@ def phases(tier):
   big = tier == 'thorough'
   return [
       {'name': 'params', 'kind': 'hyp', 'strategy': lambda: cases(tier),
-       'run': check_case, 'examples': int((50000 if big else 3000) * k)},
+       'run': check_case, 'examples': int((150000 if big else 3000) * k)},
   ]
